@@ -65,8 +65,16 @@ func (lrw *limitedResponseWriter) checkLimit(b []byte) error {
 	// If headers haven't been written yet, set the 413 status
 	if !lrw.wroteHeader {
 		lrw.statusCode = http.StatusRequestEntityTooLarge
+		// The backend's Content-Length describes the body that is being refused
+		lrw.Header().Del("Content-Length")
 		lrw.ResponseWriter.WriteHeader(http.StatusRequestEntityTooLarge)
 		lrw.wroteHeader = true
+		// Send the 413 now: the reverse proxy aborts the handler as soon as this Write
+		// fails (panic(http.ErrAbortHandler)), and an aborted handler's unflushed
+		// header is dropped with the connection - the client saw EOF instead of 413.
+		if f, ok := lrw.ResponseWriter.(http.Flusher); ok {
+			f.Flush()
+		}
 	}
 
 	return fmt.Errorf("response body exceeds limit of %d bytes", lrw.limit)
